@@ -212,15 +212,24 @@ async def _pairing_char_write(
 ) -> dict[int, bytes]:
     """Read or write a characteristic value."""
     buffer = bytearray()
+    # Items sent next to a fragment item (e.g. State / Error) are part of the
+    # reply as well and must reach the caller
+    siblings: list = []
     next_write = TLV.encode_list(request)
 
     for _ in range(MAX_REASSEMBLY):
         data = await char_write(client, None, None, handle, iid, next_write)
-        decoded = dict(TLV.decode_bytearray(bytearray(data)))
+        items = TLV.decode_bytearray(bytearray(data))
+        decoded = dict(items)
+        siblings.extend(
+            item
+            for item in items
+            if item[0] not in (TLV.kTLVType_FragmentData, TLV.kTLVType_FragmentLast)
+        )
         if TLV.kTLVType_FragmentLast in decoded:
             logger.debug("%s: Reassembling final fragment", client.address)
             buffer.extend(decoded[TLV.kTLVType_FragmentLast])
-            return dict(TLV.decode_bytes(buffer))
+            return dict(siblings + TLV.decode_bytes(buffer))
         if TLV.kTLVType_FragmentData in decoded:
             logger.debug("%s: Reassembling fragment", client.address)
             # There is more data, acknowledge the fragment
@@ -231,7 +240,7 @@ async def _pairing_char_write(
             # current does not know how to encode a 0 length
             next_write = bytes([TLV.kTLVType_FragmentData, 0])
         else:
-            return decoded
+            return dict(siblings + TLV.decode_bytes(buffer))
 
     raise ValueError(f"Reassembly failed - too many fragments (max: {MAX_REASSEMBLY})")
 
